@@ -417,6 +417,20 @@ def run(tier, seed, result):
         seqs = [list(p) for r in range(2, k + 1)
                 for p in itertools.product(rep, repeat=r)]
         pos_seq = [1, 5, 6] if tier == 'quick' else [1, 5, 6, 8]
+        # multi-attachment packets with a text frame in every slot, with
+        # too few / too many frames (needs >= 3 offender frames)
+        h2 = '52-["ev",{"_placeholder":true,"num":0},' \
+             '{"_placeholder":true,"num":1}]'
+        h3 = '53-7["ev",{"_placeholder":true,"num":2},' \
+             '[{"_placeholder":true,"num":0}],{"_placeholder":true,"num":1}]'
+        fr = ['2["ev",1]', b'A', b'B', '1', b'']
+        for hdr, n in ((h2, 2), (h3, 3)):
+            for combo in itertools.product(fr, repeat=n):
+                seqs.append([hdr] + list(combo))
+                seqs.append([hdr] + list(combo) + [b'extra'])
+            for combo in itertools.product(fr, repeat=n + 1):
+                if sum(isinstance(x, str) for x in combo) == 1:
+                    seqs.append([hdr] + list(combo))
         for chunk in _chunks(seqs, 150):
             jobs.append((is_async, 'default', chunk, pos_seq))
         for chunk in _chunks([[f] for f in mp], 100):
